@@ -1,15 +1,25 @@
 #!/bin/bash
-# run_all_seeds.sh : apply every seeded change in turn, run the check of its property, record the outcome.
+# run_all_seeds.sh : the must-fail corpus. Every seeded change is applied in turn to a scratch worktree of
+# /repo's HEAD (never to /repo itself), the check of its property is run on that worktree with its own
+# copy of gocv, and the outcome is recorded in /verif/seeded/RESULTS.txt. The worktree is removed afterwards.
+WT=/tmp/selftest_wt
+BIN=/tmp/selftest_gocv
 out=/verif/seeded/RESULTS.txt
+git -C /repo worktree remove --force $WT 2>/dev/null
+git -C /repo worktree add -q --detach $WT HEAD || exit 2
+cp /verif/bin/gocv $BIN
 : > $out
 for d in /verif/seeded/C*-*; do
   id=$(basename $d); prop=${id%-*}
   [ -f $d/patch.diff ] || continue
   if ! jq -e --arg p "$prop" '.checks[] | select(.property_id==$p)' /verif/MANIFEST.json >/dev/null; then echo "$id no-check" >> $out; continue; fi
-  res=$(bash /verif/tools/try_seed.sh $d/patch.diff $prop 2>&1)
+  if ! git -C $WT apply $d/patch.diff 2>/dev/null; then echo "$id patch-does-not-apply" >> $out; continue; fi
+  res=$($BIN check -property $prop -tier quick -repo $WT 2>&1)
+  git -C $WT checkout -q -- .
   viol=$(echo "$res" | grep -c "^VIOLATION")
   first=$(echo "$res" | grep -m1 "^VIOLATION" | sed 's/.*replay=//' | sed 's|/verif/replay/[^/]*/||')
-  if echo "$res" | grep -q "patch does not apply"; then echo "$id patch-does-not-apply" >> $out; else echo "$id violations=$viol $first" >> $out; fi
+  echo "$id violations=$viol $first" >> $out
 done
-git -C /repo checkout -- . 2>/dev/null
+git -C /repo worktree remove --force $WT
+rm -f $BIN
 echo done >> $out
